@@ -37,6 +37,25 @@ fn cli_path() -> std::path::PathBuf {
         .unwrap_or_else(|_| std::path::PathBuf::from("/verif/harness/target/cli/debug/gamedig_cli"))
 }
 
+/// After the reply to an Unreal 2 rules request, one more datagram with the same header but the kind of the server-info reply.
+struct StrayDatagram(Box<dyn crate::wire::Responder>);
+impl crate::wire::Responder for StrayDatagram {
+    fn on_open(&mut self, proto: Proto, peer: &std::net::SocketAddr, out: &mut crate::wire::Outbox) { self.0.on_open(proto, peer, out) }
+    fn on_send(&mut self, proto: Proto, peer: &std::net::SocketAddr, nth: usize, data: &[u8], out: &mut crate::wire::Outbox) {
+        let before = out.conn.inbox.len();
+        self.0.on_send(proto, peer, nth, data, out);
+        if data == [0x79, 0, 0, 0, 1] {
+            if let Some(first) = out.conn.inbox.get(before).cloned() {
+                let mut d = first;
+                if d.len() > 4 {
+                    d[4] = 0;
+                    out.conn.inbox.push_back(d);
+                }
+            }
+        }
+    }
+}
+
 struct CliRun {
     code: Option<i32>,
     stdout: Vec<u8>,
@@ -381,7 +400,11 @@ impl Prop for C19 {
                     _ => Proto::Udp,
                 };
                 let st2 = st.clone();
-                let Some(server) = RealServer::start(proto, lo, Box::new(move || st2.responder())) else {
+                // Unreal 2: half of the servers also deliver a datagram of another kind while the rule list is being read
+                // (a repeated / late datagram on the network); the client has to ignore it quietly
+                let stray = fam == Family::Unreal2 && crate::runner::digest(format!("{st:?}").as_bytes()) % 2 == 0;
+                if stray { o.label("unreal2: stray datagram during the rule list"); }
+                let Some(server) = RealServer::start(proto, lo, Box::new(move || if stray { Box::new(StrayDatagram(st2.responder())) as Box<dyn crate::wire::Responder> } else { st2.responder() })) else {
                     o.excluded = Some("cannot bind loopback".into());
                     return o;
                 };
